@@ -12,7 +12,7 @@ use crate::spec::{Item, PP};
 pub static DEF: PropDef = PropDef {
     id: "C03",
     level: "exploration",
-    rule: "each case: one input (valid / truncated / mutated / adversarial / random / mid-document) x random configuration (8 tolerance subsets, buffered subsets, capacities that force buffer compaction, size limits) x scripted short-read source. Every Ok item before the first error is checked against the input bytes with the independent reference decoder: the id decoded at the reported offset equals the item's id; the value equals the documented decoding of the payload that follows the header (big-endian unsigned, sign-extended signed, IEEE-754 4/8-byte float, UTF-8, raw bytes for ids outside the specification); the next non-End item starts exactly at header end (masters) or payload end (other elements); an End reports the offset of its matching Start (0 for implied ancestors of a mid-document start); a buffered Full reports the master's start offset, its flattened children are checked against an unbuffered parse of the same bytes, and tiling resumes after the master. distinct = (input kind, config class, structural shape hash); non-trivial iff >= 3 items were checked and the source needed >= 2 reads (buffer offset moved).",
+    rule: "each case: one input (valid / truncated / mutated / adversarial / random / mid-document) x random configuration (8 tolerance subsets, buffered subsets, capacities that force buffer compaction, size limits) x scripted short-read source (a fifth of the unmutated cases with end-of-stream closing disabled and temporary EOFs at random tag boundaries). Every Ok item before the first error is checked against the input bytes with the independent reference decoder: the id decoded at the reported offset equals the item's id; the value equals the documented decoding of the payload that follows the header (big-endian unsigned, sign-extended signed, IEEE-754 4/8-byte float, UTF-8, raw bytes for ids outside the specification); the next non-End item starts exactly at header end (masters) or payload end (other elements); an End reports the offset of its matching Start (0 for implied ancestors of a mid-document start); a buffered Full reports the master's start offset, its flattened children are checked against an unbuffered parse of the same bytes, and tiling resumes after the master. distinct = (input kind, config class, structural shape hash); non-trivial iff >= 3 items were checked and the source needed >= 2 reads (buffer offset moved).",
     assumptions: &["reference decoders in refcodec.rs", "items after the first error are not judged", "when the buffered and unbuffered parses disagree structurally (C08's subject) the Full-offset clause is skipped for that case (counted)"],
     cases_quick: 1_000_000,
     cases_thorough: 10_000_000,
@@ -33,7 +33,28 @@ fn run(c: &mut Case) {
         cfg.capacity = Some(c.rng.urange(16, 80));
     }
     let bytes = &inp.bytes;
-    let src = random_source(&mut c.rng, bytes);
+    let mut src = random_source(&mut c.rng, bytes);
+    // a fifth of the cases: end-of-stream closing disabled and temporary EOFs at random tag boundaries (the source
+    // pauses, the caller keeps calling next()): offsets must keep counting from the start of the stream
+    if !inp.lay.is_empty() && inp.mutations.is_empty() && c.rng.chance(1, 5) {
+        cfg.eof_end = false;
+        let mut stops: Vec<usize> = Vec::new();
+        for l in &inp.lay {
+            for p in [l.off, l.end] {
+                if p > 0 && p < bytes.len() && c.rng.chance(1, 4) {
+                    stops.push(p);
+                }
+            }
+        }
+        if !stops.is_empty() {
+            // pauses inside a buffered master are the known limitation of C04; keep them outside
+            let lay = &inp.lay;
+            let buffered = cfg.buffered.clone();
+            stops.retain(|p| !lay.iter().any(|l| l.is_master && buffered.contains(&l.id) && *p >= l.data_start && *p <= l.end));
+            c.count("cases_with_pauses");
+            src = src.with_stops(stops);
+        }
+    }
     let (p, src_after, _) = parse_scripted(src, &cfg);
     c.eval();
     let wit = |msg: &str, idx: usize| inp.to_json().set("config", cfg.to_json()).set("parse", p.to_json(60)).set("failing_item_index", J::u(idx)).set("problem", J::s(msg));
